@@ -29,6 +29,13 @@ import (
 	jwthook "github.com/chihaya/chihaya/middleware/jwt"
 )
 
+// near misses of the configured issuer "https://issuer.example" and audience "chihaya"
+var nearMiss = map[string]string{
+	"aud:super": "chihaya-staging", "aud:sub": "chiha", "aud:case": "Chihaya", "aud:space": " chihaya", "aud:empty": "",
+	"iss:super": "https://issuer.example.evil.test", "iss:sub": "https://issuer.exampl", "iss:case": "https://Issuer.example", "iss:space": "https://issuer.example ", "iss:empty": "",
+}
+var nearMissList = map[string][]string{"superlist": {"other", "not-chihaya.example"}, "joinlist": {"chi", "haya"}}
+
 func init() { gens["C15"] = &Gen{Run: runC15, Replay: nil} }
 
 type jwkServer struct {
@@ -161,6 +168,11 @@ func runC15(c *Ctx) {
 			cl["iss"] = "https://issuer.example"
 		case "bad":
 			cl["iss"] = "https://evil.example"
+		default: // near misses: super-/sub-strings, case, surrounding space — all of them "not the issuer"
+			if v, ok := nearMiss["iss:"+ts.iss]; ok {
+				cl["iss"] = v
+				facts["iss"] = "bad"
+			}
 		}
 		switch ts.aud {
 		case "ok":
@@ -173,6 +185,14 @@ func runC15(c *Ctx) {
 		case "badlist":
 			cl["aud"] = []string{"a", "b"}
 			facts["aud"] = "a+b"
+		default:
+			if v, ok := nearMiss["aud:"+ts.aud]; ok {
+				cl["aud"] = v
+				facts["aud"] = "bad"
+			} else if v, ok := nearMissList[ts.aud]; ok {
+				cl["aud"] = v
+				facts["aud"] = "a+b"
+			}
 		}
 		switch ts.ihc {
 		case "ok":
@@ -274,7 +294,16 @@ func runC15(c *Ctx) {
 	for i := 0; i < n; i++ {
 		ts := base()
 		why := "valid"
-		switch r.Intn(26) {
+		switch r.Intn(30) {
+		case 26:
+			ts.aud = []string{"super", "sub", "case", "space", "empty"}[r.Intn(5)]
+			why = "aud-near-miss-" + ts.aud
+		case 27:
+			ts.aud = []string{"superlist", "joinlist"}[r.Intn(2)]
+			why = "aud-near-miss-" + ts.aud
+		case 28, 29:
+			ts.iss = []string{"super", "sub", "case", "space", "empty"}[r.Intn(5)]
+			why = "iss-near-miss-" + ts.iss
 		case 0:
 			ts.present, why = false, "missing"
 		case 1:
